@@ -141,10 +141,27 @@ Theorem C12_exec_is_run : forall pk ops,
   d_s (fst (exec pk ops)) = run (rev (d_ls (fst (exec pk ops)))) (init 0 pk).
 Proof. exact exec_is_run. Qed.
 
+(* (8) the executable oracle.  Its SAFETY clauses -- every handled timer message comes from an
+   existing message timer, carries a legal number, is never earlier than creation + k periods
+   (computed from the scenario alone), is in the log exactly once and not after the target's exit
+   -- accept every run of the model's driver, for every scenario and both kinds of target; and
+   they are part of the oracle applied to the implementation *)
+Theorem C12_oracle_sound_safety : forall pk ops, check_C12_safety ops (observe pk ops) = true.
+Proof. exact oracle_sound_safety. Qed.
+
+Theorem C12_oracle_includes_safety : forall pk ops o,
+  check_C12 pk ops o = true -> check_C12_safety ops o = true.
+Proof. exact oracle_includes_safety. Qed.
+
 (* OPEN: C12_oracle_sound : forall pk ops, check_C12 pk ops (observe pk ops) = true.
-   Not proved.  The oracle is evaluated on the implementation's observations only; that it
-   accepts the model's own observation is checked by vm_compute on every generated scenario
-   of every run (lib/c12.py, `model_oracle`), not as a theorem. *)
+   GAP: the clauses outside check_C12_safety are not proved of all model runs:
+   (i) "not later than the first instant the runtime ran at/after the k-th wheel deadline" and
+   "nothing handled after an earlier abort" and "interval handle finished one period after the
+   exit" are PROGRESS statements about the fuel-bounded driver `settle` (false if the fuel runs
+   out); (ii) handle-result consistency, prefix order 1..n of an interval's handled numbers and
+   the explanation of the exit reason need further trace invariants.  All of them are checked by
+   vm_compute on the model's own observation for every scenario of every run
+   (lib/c12.py, coverage.model_oracle_accepts). *)
 
 (* ---- statement pins ---- *)
 Check (C12_abort_prevents : forall pk ls1 ls2 t0 i,
@@ -227,3 +244,5 @@ Print Assumptions C12_left_spec.
 Print Assumptions C12_exit_kill_after.
 Print Assumptions C12_exit_kill_effects.
 Print Assumptions C12_exec_is_run.
+Print Assumptions C12_oracle_sound_safety.
+Print Assumptions C12_oracle_includes_safety.
